@@ -84,6 +84,7 @@ func gramCases(j run.Job, yield func(c GCase)) {
 			if o.Trims {
 				o.Alpha = "ab \n"
 				o.LeftTrims = j.Param("lefttrims", 0) == 1
+				o.RTrimSeqs = j.Param("rtrimseqs", 0) == 1
 			}
 			o.Ends = j.Param("ends", 0) == 1
 			if j.Param("nl", 0) == 1 && r.Intn(2) == 0 {
